@@ -460,7 +460,7 @@ def typedcases(draw):
             lo = 0 if (tp[0] == "u" or base) else -hi
             v = [base + k / float(q) for k in draw(st.lists(st.integers(lo * q, hi * q), min_size=n, max_size=n))]
         cols.append([tp, v])
-    op = draw(st.sampled_from(["sortby", "sortby", "removerows_int", "removerows_tol"]))
+    op = draw(st.sampled_from(["sortby", "sortby", "removerows_int", "removerows_tol", "setcolumn", "copyrows_index"]))
     target = draw(st.integers(0, ncol - 1))
     tol = draw(st.sampled_from([0.25, 0.5, 0.75, 1.0]))
     # values to remove: near members of the target column
@@ -485,8 +485,19 @@ def check_typed(case, rec=None):
     fails = []
     op = case["op"]
     try:
+        newv = None
         if op == "sortby":
             cf.sortby(tname)
+            keep = None
+        elif op == "setcolumn":
+            # a column replaced by the method: the table then holds the values given, whatever the column held before
+            newv = [x + 0.25 for x in tcol]
+            cf.setcolumn(np.array(newv, float), tname)
+            keep = None
+        elif op == "copyrows_index":
+            # rows picked by an index array (any order, repeats allowed)
+            idx = [i for i, d in case["picks"]] + [case["n"] - 1 - i for i, d in case["picks"]][:2]
+            cf = cf.copyrows(np.array(idx, int))
             keep = None
         else:
             vals = [tcol[i] + d * 0.25 for i, d in case["picks"]]
@@ -504,6 +515,19 @@ def check_typed(case, rec=None):
     got = [[float(x) for x in cf.getcolumn(nm)] for nm in names]
     if any(len(g) != cf.nrows for g in got):
         fails.append(fail("typed", "%s: nrows %d, column lengths %s" % (op, cf.nrows, [len(g) for g in got]), op=op))
+    elif op == "setcolumn":
+        exp = [list(m) for m in model]
+        exp[case["target"]] = newv
+        if got != exp:
+            fails.append(fail("typed", "setcolumn of a %s column with the values %s: the table holds %s (other columns %s)"
+                              % (case["cols"][case["target"]][0], newv[:4], got[case["target"]][:4],
+                                 "unchanged" if all(g == m for k, (g, m) in enumerate(zip(got, model))
+                                                    if k != case["target"]) else "changed"), op=op))
+    elif op == "copyrows_index":
+        exp = [[m[i] for i in idx] for m in model]
+        if got != exp:
+            fails.append(fail("typed", "copyrows(index array %s): rows %s, expected %s" %
+                              (idx, got[case["target"]][:6], exp[case["target"]][:6]), op=op))
     elif op == "sortby":
         col = got[case["target"]]
         if any(b < a for a, b in zip(col[:-1], col[1:])):
@@ -519,11 +543,14 @@ def check_typed(case, rec=None):
                 op, case["cols"][case["target"]][0], vals, "" if op == "removerows_int" else ", tol %g" % case["tol"],
                 got[case["target"]][:6], exp[case["target"]][:6]), op=op))
     for nm, a in arrays.items():
+        if op == "setcolumn" and nm == tname:
+            continue
         if not fails and cf.getcolumn(nm).dtype != a.dtype:
             fails.append(fail("typed", "%s changed the type of column %s from %s to %s" %
                               (op, nm, a.dtype, cf.getcolumn(nm).dtype), op=op))
     if rec is not None:
-        moved = (op == "sortby" and got[case["target"]] != tcol) or (keep is not None and not all(keep) and any(keep))
+        moved = (op in ("sortby", "setcolumn", "copyrows_index") and got[case["target"]] != tcol) or \
+            (keep is not None and not all(keep) and any(keep))
         rec.case(case, bool(moved), ["typed:" + op, "typed:" + case["cols"][case["target"]][0]] +
                  (["typed:large_values"] if max(abs(x) for x in tcol) >= 40000 else []))
     return fails
